@@ -902,6 +902,16 @@ func (g *Gen) sPcall() []Stmt {
 	switch g.n(4) {
 	case 0:
 		h := Fn([]string{"m"}, Emit(S("handler"), N("m")), Ret(Tab(FK("wrapped", N("m")))))
+		switch g.n(4) {
+		case 0:
+			// several results: only the first one replaces the error value
+			h = Fn([]string{"m"}, Emit(S("handler"), N("m")), Ret(Tab(FK("wrapped", N("m"))), S("second"), I(3)))
+			g.feat("xpcall-handler-multi-results")
+		case 1:
+			// no result: the error value becomes nil
+			h = Fn([]string{"m"}, Emit(S("handler"), N("m")))
+			g.feat("xpcall-handler-no-result")
+		}
 		g.feat("xpcall")
 		r := g.fresh("r")
 		return []Stmt{Loc([]string{ok, r}, CN("xpcall", f, h)), Emit(N(ok), CN("type", N(r)), B("and", B("==", CN("type", N(r)), S("table")), Ix(N(r), "wrapped")))}
